@@ -286,9 +286,25 @@ def check_corrupt(case):
     harness.install(cor)
     discs += []
     names = [S.render(r) for r in case["reqs"]]
+    holder = []
+
+    def oversized():
+        """largest size any uploaded type definition claims (bytes), if a corrupted reply made one absurd (> 16 MB)"""
+        big = 0
+        try:
+            for dt in list(getattr(holder[0], "_data_types", {}).values()) if holder else []:
+                if isinstance(dt, dict):
+                    big = max(big, int(dt.get("template", {}).get("structure_size") or 0))
+                    tc = dt.get("type_class")
+                    big = max(big, int(getattr(tc, "size", 0) or 0))
+        except Exception:
+            pass
+        return big if big > (1 << 24) else 0
+
     try:
         def factory():
             plc = LogixDriver("192.168.1.10")
+            holder.append(plc)
             plc.open()
             return plc
         if case["op"] == "read":
@@ -301,8 +317,17 @@ def check_corrupt(case):
         try:
             plc, results = run_ops(factory, ops, discs, "corrupt", cor)
         except harness.StepBudgetExceeded:
-            discs.append(Disc(f"corrupt.nonterminating.{cor.current_op or 'open'}", f"after the corrupted reply #{case['k']} ({case['mode']} {case['arg']}) the driver kept sending requests during {cor.current_op or 'open'} (step budget exceeded)"))
+            big = oversized()
+            if big:
+                # one root cause, two faces (which one shows depends on the memory available): see KNOWN_FINDINGS.txt
+                discs.append(Disc("corrupt.oversized-type-definition.foreign.MemoryError.or-endless-transfer", f"a type definition claims {big} bytes after the corrupted reply #{case['k']}: {cor.current_op} keeps sending fragments of a value of that size"))
+            else:
+                discs.append(Disc(f"corrupt.nonterminating.{cor.current_op or 'open'}", f"after the corrupted reply #{case['k']} ({case['mode']} {case['arg']}) the driver kept sending requests during {cor.current_op or 'open'} (step budget exceeded)"))
             return discs
+        big = oversized()
+        if big and any(".foreign.MemoryError." in d.bucket for d in discs):
+            discs[:] = [d for d in discs if ".foreign.MemoryError." not in d.bucket] + \
+                [Disc("corrupt.oversized-type-definition.foreign.MemoryError.or-endless-transfer", f"a type definition claims {big} bytes after the corrupted reply #{case['k']}: MemoryError escaped a public call")]
         # a reply cut before its status words (encapsulation status at 8-11, CIP status at 42 / 48) is never reported as success:
         # the call that consumed it must not come back all-truthy
         if cor.applied is not None and case["mode"] == "truncate" and len(cor.applied[1]) < 43 and cor.applied_during not in (None, "open"):
